@@ -11,7 +11,7 @@ def extra(totals):
 
 
 def run(ctx):
-    return rotcheck.run_property(ctx, "C08", PROFILE, quick=150, thorough=20000,
+    return rotcheck.run_property(ctx, "C08", PROFILE, quick=150, thorough=8000,
                                  nontrivial=lambda a: a.stats["compressions"] >= 1,
                                  rule="compression always on; contents from 1 byte to 4 MiB crossing 8 KiB / 16 KiB / 64 KiB / 1 MiB; every .gz parsed by "
                                       "an independent RFC 1952 reader (single member, deflate end, CRC-32, ISIZE) and compared with the bytes it replaces; "
